@@ -65,6 +65,16 @@ OuterCost == SumOf([q \in 1..(Len(ctx) - 1) |->
                       SumOf([j \in 1..Len(ctx[q].stk) |-> ctx[q].stk[j].n]) + Len(ctx[q].stk) + 1
                         + (IF ctx[q].kind = "mod" THEN ctx[q].used ELSE 0)])
 
+(* two values have one shape: the same type, tuples field by field, lists element-wise   *)
+(* (an empty list fits any list) - what the checker would give ONE shape, not a union   *)
+RECURSIVE SameShape(_, _)
+SameShape(a, b) ==
+  IF a.t # b.t THEN FALSE
+  ELSE IF a.t = "tuple" THEN /\ Len(a.fs) = Len(b.fs)
+                             /\ \A j \in 1..Len(a.fs) : a.fs[j].nm = b.fs[j].nm /\ SameShape(a.fs[j].val, b.fs[j].val)
+  ELSE IF a.t = "list" THEN \A i \in 1..Len(a.es) : \A j \in 1..Len(b.es) : SameShape(a.es[i], b.es[j])
+  ELSE TRUE
+
 (* push a term built from the top k terms; typing by evaluation *)
 Join(k, x) ==
   LET c    == Cur
@@ -79,7 +89,7 @@ Join(k, x) ==
       (* type - a select of mixed types is valid and evaluates, but it is where the   *)
       (* checker's union shapes come from; the flag keys that recorded finding        *)
       uni == x.e = "select" => /\ kids[1].v.t \in {"str", "bool"}
-                               /\ \A j \in 2..k : kids[j].v.t = kids[2].v.t
+                               /\ \A j \in 2..k : SameShape(kids[j].v, kids[2].v)
       cl == IF ~cl0 THEN "dirty" ELSE IF uni /\ (\A j \in 1..k : kids[j].cl = "clean") THEN "clean" ELSE "union"
       rest == SubSeq(c.stk, 1, Len(c.stk) - k)
       (* every further term on the stack costs at least one more join node *)
